@@ -934,3 +934,64 @@ def class_state_not_shared(chk):
                    detail="`%s` is created once with the class: what one %s stores there every other one reads (a second machine, a second validator with other specs)"
                           % (name, f.cls.name), construct=ident, text="class-level container %s written" % name)
     chk.ob("SHARED-0", "methods examined for writes to class-level containers (%d)" % n, True, "mpf:1", nontrivial=False)
+
+
+# ------------------------------------------------------------------------------------------------------- LASTONLY-0
+_POS_LAST = """
+class A:
+    async def connect(self):
+        for port in self.config['ports']:
+            comm = Communicator(port)
+            await comm.connect()
+
+        self.connections.add(comm)
+"""
+
+
+def _registered_after_loop(fn_node):
+    """[(call, name, loop)]: an object built once per trip of a for loop (a name bound only inside the loop body, from a call) is stored in a
+    container of `self` only after the loop - so only the object of the last trip is stored."""
+    out = []
+    loops = [x for x in ast.walk(fn_node) if isinstance(x, (ast.For, ast.AsyncFor))]
+    if not loops:
+        return out
+    alldefs = {}
+    for x in ast.walk(fn_node):
+        if isinstance(x, ast.Assign):
+            for t in x.targets:
+                if isinstance(t, ast.Name):
+                    alldefs.setdefault(t.id, []).append(x)
+    for lp in loops:
+        inside = {id(y) for st in lp.body for y in ast.walk(st)}
+        names = {t.id for x in ast.walk(lp) if isinstance(x, ast.Assign) and id(x) in inside and isinstance(x.value, (ast.Call, ast.Await))
+                 for t in x.targets if isinstance(t, ast.Name)}
+        names = {nm for nm in names if all(id(d) in inside for d in alldefs.get(nm, []))}
+        if not names:
+            continue
+        stored_inside = {a.id for c in ast.walk(lp) if isinstance(c, ast.Call) and id(c) in inside and isinstance(c.func, ast.Attribute) and
+                         c.func.attr in ("add", "append") for a in c.args if isinstance(a, ast.Name)}
+        for c in ast.walk(fn_node):
+            if isinstance(c, ast.Call) and isinstance(c.func, ast.Attribute) and c.func.attr in ("add", "append") and src(c.func.value).startswith("self.") and \
+                    id(c) not in inside and c.lineno > lp.end_lineno:
+                for a in c.args:
+                    if isinstance(a, ast.Name) and a.id in names and a.id not in stored_inside:
+                        out.append((c, a.id, lp))
+    return out
+
+
+def per_trip_objects_registered(chk):
+    pos = ast.parse(_POS_LAST).body[0].body[0]
+    if len(_registered_after_loop(pos)) != 1:
+        chk.pending_errors.append("LASTONLY-0 detector does not match its positive example")
+    n = 0
+    for ident in sorted(_anchor_idents(chk)):
+        rel, qual = ident.split("::", 1)
+        f = chk.repo.try_func(rel, qual)
+        if f is None:
+            continue
+        n += 1
+        for c, nm, lp in _registered_after_loop(f.node):
+            chk.ob("LASTONLY-0", "an object built on every trip of a loop is registered on every trip (not once, after the loop)", False, f.where(c),
+                   detail="`%s` is bound inside `for %s in %s` and stored by `%s` after the loop: only the last one is kept (the others are never started / polled / stopped)"
+                          % (nm, src(lp.target), src(lp.iter)[:40], src(c)[:60]), construct=ident, text="only the last %s registered" % nm)
+    chk.ob("LASTONLY-0", "loops examined for per-trip objects registered after the loop (%d functions)" % n, True, "mpf:1", nontrivial=False)
